@@ -240,6 +240,27 @@ impl HybridRunner {
         }
     }
 
+    /// `Store::load` with the age the disk tier reports for the entry: 0 = miss, 1 = young, 2 = old (its block is
+    /// marked for imminent reclaim), 3 = served from the write queue
+    pub fn store_load_age(&mut self, k: u64) -> (i64, u8) {
+        let Some(cache) = self.cache.as_ref().cloned() else { return (0, 0) };
+        let store = cache.storage().clone();
+        let r = self.drive(Box::pin(async move { store.load(&k).await }));
+        match r {
+            None => (-2, 0),
+            Some(Ok(foyer::Load::Entry { value, populated, .. })) => (
+                Self::encode_res(&value, k),
+                match populated.age {
+                    foyer::Age::Old => 2,
+                    _ => 1,
+                },
+            ),
+            Some(Ok(foyer::Load::Piece { piece, .. })) => (Self::encode_res(piece.value(), k), 3),
+            Some(Ok(_)) => (0, 0),
+            Some(Err(_)) => (-1, 0),
+        }
+    }
+
     /// Start `Store::wait` in the background; the flag turns true when it returns (= the acknowledgement
     /// that everything submitted before this call has been flushed).
     pub fn spawn_wait_flag(&self) -> Arc<std::sync::atomic::AtomicBool> {
